@@ -1,9 +1,13 @@
 (* Encoders of the Auth model's results into Obs.T; oracles instantiated by tables
    recorded from the library calls of the implementation run. *)
-From Coq Require Import List ZArith NArith Bool.
+From Coq Require Import List ZArith NArith Bool String Ascii.
 From Circ Require Import Lib.Obs Model.Auth.
 Import ListNotations.
 Open Scope N_scope.
+
+(* compact literals for printable-ASCII strings of the generated cases *)
+Fixpoint s2l (s : string) : list N :=
+  match s with EmptyString => [] | String a r => N_of_ascii a :: s2l r end.
 
 Definition tbl_opt {A} (t : list (str * option A)) (k : str) : option A :=
   match lookup k t with Some v => v | None => None end.
@@ -29,12 +33,18 @@ Definition obs_outcome (o : outcome) : T :=
   end.
 
 (* fn: 0 check_auth / basic_auth with the given encrypt, 1 digest_auth *)
-Definition obs_auth (b64t utf8t : list (str * option (list N))) (md5t : list (str * str))
+Definition outcome_of (b64t utf8t : list (str * option (list N))) (md5t : list (str * str))
     (keqvt : list (str * option params)) (fn kind : nat)
-    (hdr : option str) (method realm : str) (users : list (str * str)) : T :=
-  obs_outcome
-    (match fn with
-     | 0%nat => basic_auth (tbl_opt b64t) (tbl_opt utf8t) (tbl md5t) (tbl_opt keqvt) (enc_of kind md5t)
-                  hdr method realm users
-     | _ => digest_auth (tbl_opt b64t) (tbl_opt utf8t) (tbl md5t) (tbl_opt keqvt) hdr method realm users
-     end).
+    (hdr : option str) (method realm : str) (users : list (str * str)) : outcome :=
+  match fn with
+  | 0%nat => basic_auth (tbl_opt b64t) (tbl_opt utf8t) (tbl md5t) (tbl_opt keqvt) (enc_of kind md5t)
+               hdr method realm users
+  | _ => digest_auth (tbl_opt b64t) (tbl_opt utf8t) (tbl md5t) (tbl_opt keqvt) hdr method realm users
+  end.
+
+Definition obs_auth b64t utf8t md5t keqvt fn kind hdr method realm users : T :=
+  obs_outcome (outcome_of b64t utf8t md5t keqvt fn kind hdr method realm users).
+
+(* end-to-end runs: was the protected body served? *)
+Definition obs_served b64t utf8t md5t keqvt fn kind hdr method realm users : T :=
+  Tbool (protected_served (outcome_of b64t utf8t md5t keqvt fn kind hdr method realm users)).
